@@ -79,18 +79,40 @@ def cmp_sig(P, body, bid, i):
     return ['lt', b, a]
 
 
-def _sig_sim(x, y):
+_ARITH = re.compile(r'^(?:Add|Sub|Mul|Div|Rem|Shl|Shr|BitAnd|BitOr|BitXor|Not|Neg|Ord::(?:min|max)|\w+::(?:saturating|checked|wrapping|overflowing)_\w+|\w+::(?:pow|abs_diff))$')
+
+
+def _loose_sim(a, b):
+    """Two operand leaf sets identify the same operand of a reviewed abort site.  Looser than the census criterion (facts._sim):
+    the entry's `requires` facts decide whether the site is still guarded, this only decides WHICH reviewed site it is.  Same
+    arithmetic operators; the same constants when an operand is nothing but constants; named leaves of one contained in the
+    other's (how an Option was unwrapped -- `then_some`, `filter(|x| x == y)` -- adds plumbing leaves); parameters by name."""
     from engine import facts
+    if facts._sim(frozenset(a), frozenset(b)):
+        return True
+    a, b = set(a) - {'c?'}, set(b) - {'c?'}
+    aa, ao, an = facts._classes(a)
+    ba, bo, bn = facts._classes(b)
+    if {x for x in ao if _ARITH.match(x)} != {x for x in bo if _ARITH.match(x)}:
+        return False
+    if not an and not bn and not aa and not ba:
+        return ao == bo
+    if bool(an) != bool(bn) or (an and not (an <= bn or bn <= an)):
+        return False
+    pa, pb = {x.split('*')[0] for x in aa}, {x.split('*')[0] for x in ba}
+    return pa <= pb or pb <= pa
+
+
+def _sig_sim(x, y):
     if x is None or y is None or x[0] != y[0] or x[1] != y[1] or len(x[2]) != len(y[2]):
         return False
-    return all(facts._sim(frozenset(a), frozenset(b)) for a, b in zip(x[2], y[2]))
+    return all(_loose_sim(a, b) for a, b in zip(x[2], y[2]))
 
 
 def _cmp_sim(x, y):
-    from engine import facts
     if x is None or y is None or x[0] != y[0]:
         return False
-    f = lambda u, v: facts._sim(frozenset(u), frozenset(v))
+    f = _loose_sim
     return (f(x[1], y[1]) and f(x[2], y[2])) or (x[0] == 'eq' and f(x[1], y[2]) and f(x[2], y[1]))
 
 
